@@ -321,11 +321,13 @@ impl Database {
             // Run recovery through recuperator
             recuperator.run_recovery(&analysis).map_err(box_err)?;
 
-            // Truncate WAL
-            pager.write().truncate_wal().map_err(box_err)?;
-
             // Commit recovery transaction
             tx_ctx.commit_transaction().map_err(box_err)?;
+
+            // Checkpoint: the redone pages and the header must be on disk BEFORE the log that
+            // describes them is dropped (a crash right after recovery must not lose them).
+            // [Pager::flush] truncates the WAL as its last step.
+            pager.write().flush().map_err(box_err)?;
 
             Ok(())
         })?;
